@@ -24,13 +24,14 @@ for d in seeded/${ONLY:-}*/; do
     continue
   fi
   for s in ${SEEDS:-0}; do
+    hit=0
     for c in $want; do
       out=$(SMG_REPO=$wt VERIF_SEED=$s ./check $c $tier 2>&1); rc=$?
       echo "$(basename $d): $c $tier seed=$s rc=$rc $(echo "$out" | grep -E '^(VIOLATION|INCONCLUSIVE|HELD)' | head -1 | cut -c1-160)"
-      # the property's own check has to fire for every seed (or the only listed one); the others are reported
-      case " $want " in *" $id "*) prim=$id;; *) prim=$(echo $want | cut -d' ' -f1);; esac
-      [ "$c" != "$prim" ] || [ $rc -eq 1 ] || { fail=1; echo "  ^^^ MISSED by its primary check"; }
+      [ $rc -eq 1 ] && hit=1
     done
+    # for every seed at least one of the checks listed in meta.json caught_by has to fire
+    [ $hit -eq 1 ] || { fail=1; echo "  ^^^ MISSED for seed $s"; }
   done
 done
 git -C /repo worktree remove --force $wt
